@@ -185,6 +185,29 @@ public:
     }
     bool     has_value() const { return m_has; }
     explicit operator bool() const { return m_has; }
+    T        value_or(const T& d) const { return m_has ? m_val : d; }
+    void     reset()
+    {
+        m_has = false;
+        m_val = T();
+    }
+    template<class... Args>
+    T& emplace(Args&&... args)
+    {
+        m_val = T(std::forward<Args>(args)...);
+        m_has = true;
+        return m_val;
+    }
+    T* operator->()
+    {
+        __vf_check(m_has, VF_OPT_EMPTY);
+        return &m_val;
+    }
+    const T* operator->() const
+    {
+        __vf_check(m_has, VF_OPT_EMPTY);
+        return &m_val;
+    }
     T&       value()
     {
         __vf_check(m_has, VF_OPT_EMPTY);
@@ -254,6 +277,45 @@ public:
     {
         __vf_check(i < m_size, VF_VEC_OOB);
         return m_data[i];
+    }
+    T& at(size_t i)
+    {
+        __vf_check(i < m_size, VF_VEC_OOB);
+        return m_data[i];
+    }
+    T& back()
+    {
+        __vf_check(m_size != 0, VF_VEC_OOB);
+        return m_data[m_size - 1];
+    }
+    const T& back() const
+    {
+        __vf_check(m_size != 0, VF_VEC_OOB);
+        return m_data[m_size - 1];
+    }
+    T& front()
+    {
+        __vf_check(m_size != 0, VF_VEC_OOB);
+        return m_data[0];
+    }
+    const T& front() const
+    {
+        __vf_check(m_size != 0, VF_VEC_OOB);
+        return m_data[0];
+    }
+    T*       data() { return m_data; }
+    const T* data() const { return m_data; }
+    void     pop_back()
+    {
+        __vf_check(m_size != 0, VF_VEC_OOB);
+        m_data[m_size - 1].~T();
+        --m_size;
+    }
+    void clear()
+    {
+        for (size_t i = 0; i < m_size; ++i)
+            m_data[i].~T();
+        m_size = 0;
     }
     size_t size() const { return m_size; }
     size_t capacity() const { return m_cap; }
@@ -449,6 +511,26 @@ public:
     {
         return *emplace(end(), std::forward<Args>(args)...);
     }
+    template<class... Args>
+    T& emplace_front(Args&&... args)
+    {
+        return *emplace(begin(), std::forward<Args>(args)...);
+    }
+    void     push_back(const T& v) { emplace(end(), v); }
+    void     push_back(T&& v) { emplace(end(), std::move(v)); }
+    void     push_front(const T& v) { emplace(begin(), v); }
+    void     push_front(T&& v) { emplace(begin(), std::move(v)); }
+    iterator insert(iterator pos, const T& v) { return emplace(pos, v); }
+    void     pop_back()
+    {
+        __vf_check(m_size != 0, VF_LIST_BACK_EMPTY);
+        erase(iterator(this, m_pool[0].prev));
+    }
+    void pop_front()
+    {
+        __vf_check(m_size != 0, VF_LIST_BACK_EMPTY);
+        erase(begin());
+    }
     iterator erase(iterator it)
     {
         check_mine(it);
@@ -544,6 +626,41 @@ It next(It it)
     ++it;
     return it;
 }
+template<class T>
+constexpr const T& min(const T& a, const T& b)
+{
+    return (b < a) ? b : a;
+}
+template<class T>
+constexpr const T& max(const T& a, const T& b)
+{
+    return (a < b) ? b : a;
+}
+template<class It>
+size_t distance(It first, It last)
+{
+    size_t n = 0;
+    while (first != last)
+    {
+        ++first;
+        ++n;
+    }
+    return n;
+}
+template<class It>
+void advance(It& it, long n)
+{
+    while (n > 0)
+    {
+        ++it;
+        --n;
+    }
+    while (n < 0)
+    {
+        --it;
+        ++n;
+    }
+}
 template<class It, class V>
 void iota(It first, It last, V v)
 {
@@ -591,6 +708,16 @@ public:
         }
         bool operator==(const iterator& o) const { return i == o.i && m == o.m; }
         bool operator!=(const iterator& o) const { return !(*this == o); }
+        // iteration order: pool order (unspecified by the standard, any order is a legal one)
+        iterator& operator++()
+        {
+            check_live();
+            size_t n = i + 1;
+            while (n < m->m_pool_n && !m->m_pool[n].live)
+                ++n;
+            i = (n < m->m_pool_n) ? n : __vf_npos;
+            return *this;
+        }
         void check_live() const
         {
             __vf_check(m != nullptr, VF_UMAP_DEREF_END);
@@ -638,6 +765,13 @@ public:
     size_t   size() const { return m_size; }
     bool     empty() const { return m_size == 0; }
     iterator end() { return iterator(this, __vf_npos); }
+    iterator begin()
+    {
+        for (size_t i = 0; i < m_pool_n; ++i)
+            if (m_pool[i].live)
+                return iterator(this, i);
+        return end();
+    }
     iterator find(const K& k)
     {
         for (size_t i = 0; i < m_pool_n; ++i)
@@ -646,6 +780,30 @@ public:
                 return iterator(this, i);
         }
         return end();
+    }
+    size_t count(const K& k) { return find(k) != end() ? 1 : 0; }
+    V&     at(const K& k)
+    {
+        iterator f = find(k);
+        __vf_check(f != end(), VF_UMAP_DEREF_END);
+        return f->second;
+    }
+    V& operator[](const K& k)
+    {
+        iterator f = find(k);
+        if (f != end())
+            return f->second;
+        return emplace(k).first->second;
+    }
+    pair<iterator, bool> insert(const pair<const K, V>& kv) { return emplace(kv.first, kv.second); }
+    pair<iterator, bool> insert(const pair<K, V>& kv) { return emplace(kv.first, kv.second); }
+    size_t               erase(const K& k)
+    {
+        iterator f = find(k);
+        if (f == end())
+            return 0;
+        erase(f);
+        return 1;
     }
     template<class KK, class... Args>
     pair<iterator, bool> emplace(KK&& k, Args&&... args)
@@ -782,6 +940,39 @@ public:
         return end();
     }
 
+    size_t count(const K& k)
+    {
+        size_t c = 0;
+        for (size_t n = m_first; n != __vf_npos; n = m_pool[n].next)
+            if (!(m_pool[n].kv.first < k) && !(k < m_pool[n].kv.first))
+                ++c;
+        return c;
+    }
+    iterator lower_bound(const K& k)
+    {
+        for (size_t n = m_first; n != __vf_npos; n = m_pool[n].next)
+            if (!(m_pool[n].kv.first < k))
+                return iterator(this, n);
+        return end();
+    }
+    iterator upper_bound(const K& k)
+    {
+        for (size_t n = m_first; n != __vf_npos; n = m_pool[n].next)
+            if (k < m_pool[n].kv.first)
+                return iterator(this, n);
+        return end();
+    }
+    size_t erase(const K& k)
+    {
+        size_t c = 0;
+        for (iterator f = find(k); f != end(); f = find(k))
+        {
+            erase(f);
+            ++c;
+        }
+        return c;
+    }
+
 protected:
     template<class KK, class... Args>
     pair<iterator, bool> do_emplace(KK&& k, Args&&... args)
@@ -894,6 +1085,43 @@ public:
     void unlock() { __vf_mutex_unlock(this); }
 };
 template<class M>
+class unique_lock
+{
+public:
+    explicit unique_lock(M& m) : m_m(m), m_owns(true) { m_m.lock(); }
+    ~unique_lock()
+    {
+        if (m_owns)
+            m_m.unlock();
+    }
+    void lock()
+    {
+        m_m.lock();
+        m_owns = true;
+    }
+    void unlock()
+    {
+        m_m.unlock();
+        m_owns = false;
+    }
+    unique_lock(const unique_lock&) = delete;
+
+private:
+    M&   m_m;
+    bool m_owns;
+};
+template<class M>
+class scoped_lock
+{
+public:
+    explicit scoped_lock(M& m) : m_m(m) { m_m.lock(); }
+    ~scoped_lock() { m_m.unlock(); }
+    scoped_lock(const scoped_lock&) = delete;
+
+private:
+    M& m_m;
+};
+template<class M>
 class lock_guard
 {
 public:
@@ -941,6 +1169,8 @@ public:
         static_assert((P2::num * Period::den) % (P2::den * Period::num) == 0, "lossy duration conversion");
     }
     constexpr Rep count() const { return m_c; }
+    using rep    = Rep;
+    using period = Period;
 
 private:
     Rep m_c;
@@ -951,9 +1181,44 @@ constexpr bool operator<(const duration<R, P>& a, const duration<R, P>& b)
     return a.count() < b.count();
 }
 template<class R, class P>
+constexpr bool operator>(const duration<R, P>& a, const duration<R, P>& b)
+{
+    return b < a;
+}
+template<class R, class P>
+constexpr bool operator<=(const duration<R, P>& a, const duration<R, P>& b)
+{
+    return !(b < a);
+}
+template<class R, class P>
+constexpr bool operator>=(const duration<R, P>& a, const duration<R, P>& b)
+{
+    return !(a < b);
+}
+template<class R, class P>
+constexpr bool operator==(const duration<R, P>& a, const duration<R, P>& b)
+{
+    return a.count() == b.count();
+}
+template<class R, class P>
+constexpr bool operator!=(const duration<R, P>& a, const duration<R, P>& b)
+{
+    return a.count() != b.count();
+}
+template<class R, class P>
 constexpr duration<R, P> operator+(const duration<R, P>& a, const duration<R, P>& b)
 {
     return duration<R, P>(a.count() + b.count());
+}
+template<class R, class P>
+constexpr duration<R, P> operator-(const duration<R, P>& a, const duration<R, P>& b)
+{
+    return duration<R, P>(a.count() - b.count());
+}
+template<class To, class R, class P>
+constexpr To duration_cast(const duration<R, P>& d)
+{
+    return To(d.count() * ((P::num * To::period::den) / (P::den * To::period::num)));
 }
 // The model clock ticks in the same unit as std::chrono::milliseconds, see DESIGN.md.
 using milliseconds = duration<int64_t, milli>;
@@ -976,6 +1241,21 @@ template<class C, class D, class R2, class P2>
 constexpr time_point<C, D> operator+(const time_point<C, D>& t, const duration<R2, P2>& d)
 {
     return time_point<C, D>(D(t.time_since_epoch().count() + D(d).count()));
+}
+template<class C, class D, class R2, class P2>
+constexpr time_point<C, D> operator-(const time_point<C, D>& t, const duration<R2, P2>& d)
+{
+    return time_point<C, D>(D(t.time_since_epoch().count() - D(d).count()));
+}
+template<class C, class D>
+constexpr D operator-(const time_point<C, D>& a, const time_point<C, D>& b)
+{
+    return D(a.time_since_epoch().count() - b.time_since_epoch().count());
+}
+template<class C, class D>
+constexpr bool operator!=(const time_point<C, D>& a, const time_point<C, D>& b)
+{
+    return a.time_since_epoch().count() != b.time_since_epoch().count();
 }
 template<class C, class D>
 constexpr bool operator<(const time_point<C, D>& a, const time_point<C, D>& b)
